@@ -291,7 +291,7 @@ func parseManifestStream(s string) (m ManifestStream) {
 			m.Err = fmt.Errorf("File segment %s extends past end of stream %d", ft, streamoffset)
 			break
 		}
-		if pft.SegLen > 0 && fixStreamName(m.StreamName+"/"+pft.Name) != m.StreamName+"/"+pft.Name {
+		if !(pft.SegLen == 0 && pft.Name == ".") && fixStreamName(m.StreamName+"/"+pft.Name) != m.StreamName+"/"+pft.Name {
 			// segment() looks files up under the cleaned path: data under a
 			// name with an empty, "." or ".." component would be lost silently.
 			m.Err = fmt.Errorf("Invalid file token: %s", ft)
